@@ -51,6 +51,23 @@ if full:
     c = subprocess.run(["/verif/tools/baseline_cmp.py", f"/var/tmp/vs_{name}.junit.xml"], capture_output=True, text=True)
     meta["suite"] = c.stdout.strip().splitlines()
     meta["suite_passes"] = c.returncode == 0
+    missing = [l.split("NOT PASSING:", 1)[1].strip() for l in meta["suite"] if "NOT PASSING:" in l]
+    if missing and len(missing) <= 12:
+        # timing-sensitive tests (k8s / gcp 2-second waits) flake when the machine is loaded: re-run the failures alone, twice at most
+        def nodeid(t):
+            cls, name = t.split("::", 1)
+            parts = cls.split(".")
+            i = max(k for k, x in enumerate(parts) if x.startswith("test_"))
+            return "/".join(parts[: i + 1]) + ".py" + "".join("::" + x for x in parts[i + 1 :]) + "::" + name
+        still = missing
+        for attempt in range(2):
+            rr = subprocess.run(["/venv/bin/python", "-m", "pytest", "-q", "-p", "no:cacheprovider", "--timeout=900", "--ignore=SEED"] + [nodeid(t) for t in still], cwd=wt, capture_output=True, text=True)
+            if rr.returncode == 0:
+                still = []
+                break
+        meta["suite_rerun_of_failures"] = {"tests": missing, "pass_when_rerun_alone": not still, "tail": rr.stdout[-300:]}
+        if not still:
+            meta["suite_passes"] = True
     os.remove(f"/var/tmp/vs_{name}.junit.xml")
 subprocess.run(["git", "-C", "/repo", "worktree", "remove", "--force", wt], capture_output=True)
 old = {}
